@@ -77,6 +77,8 @@ EvInit(e) ==
     /\ P("C01", "init_counts", e.it = 0 /\ e.n_dead = 0 /\ e.n_integ = 0 /\ e.n_ins = 0)
     /\ M("init: ids dense", FreshDense(e))
     /\ P("C01", "init_iteration_field_zero", e.it_zero)
+    \* a later process of the history drew a new live set although a checkpoint had been written
+    /\ P("C12", "started_afresh_although_a_checkpoint_exists", disk = Null)
     /\ aux' = [aux EXCEPT !.last = "init", !.itsum = 0] /\ UNCHANGED disk
 
 \* ---------------------------------------------------------------- iter
